@@ -55,7 +55,7 @@ class Bench:
                 alts.append((g, v))
             else:
                 alts.extend((b_and(g, g2), x) for g2, x in alts_of(v))
-        return Run(alts, assume, I, spec)
+        return Run(alts, assume + list(I.definitions), I, spec)
 
     def call(self, name, args, env=None, profile="dev", assume=(), st=None, no_merge=False):
         """symbolically execute an arbitrary crate function -> Run"""
@@ -77,7 +77,7 @@ class Bench:
                 alts.append((g, v, s))
             else:
                 alts.extend((b_and(g, g2), x, s) for g2, x in alts_of(v))
-        r = Run([(g, v) for g, v, _ in alts], list(assume), I, None)
+        r = Run([(g, v) for g, v, _ in alts], list(assume) + list(I.definitions), I, None)
         r.states = [s for _, _, s in alts]
         return r
 
